@@ -1,5 +1,5 @@
 HOOK_COMMITS = ["33a37d7"]
-FIX_COMMITS = ["547ab85", "bf5a7b0", "e00c6fc", "c4f8c04", "8b0ff5b", "86b6ba0", "c986467", "4cc4014", "efa9ff9", "d0c2726", "769bfdb", "765a49c", "25dbe31"]
+FIX_COMMITS = ["547ab85", "bf5a7b0", "e00c6fc", "c4f8c04", "8b0ff5b", "86b6ba0", "c986467", "4cc4014", "efa9ff9", "d0c2726", "769bfdb", "765a49c", "25dbe31", "1f34e85"]
 NOTES = ("All checks are property-based tests / fuzz targets over the real go-dcp code built from /repo's working tree "
          "(build tag verif). Exit 2 = inconclusive (build/infrastructure/budget), never a pass. See DESIGN.md.")
 NOT_APPLICABLE = {}
